@@ -3,6 +3,7 @@ import QM.FsDropins
 import QM.Props.C15
 import QM.Props.C03
 import QM.SplitLemmas
+import QM.MergeLemmas
 /-! # C13 — search order picks among same-named files; drop-ins come from every search dir
 
 `Cv.candidates t` lists the unit files of an abstract tree in discovery order (every directory of the search order —
@@ -110,6 +111,38 @@ theorem C13_split_histories (env : Parse.Env) (r₁ r₂ : List Parse.RSect)
   have e : assignments whole sec key = assignments (MM.mergeFrom main dropin) sec key := by
     unfold assignments; rw [h4]
   exact ⟨e, by unfold lookupAllValues; rw [e], by unfold lookupLastValue; rw [e]⟩
+
+/-- … and when every section of the drop-in carries at least one entry, the two are the *same unit*: same sections in the same
+    order, same entries in the same order — so whatever is computed from the unit (every converter, the whole run) is the same -/
+theorem C13_split_exact (env : Parse.Env) (r₁ r₂ : List Parse.RSect)
+    (wf₁ : ∀ s ∈ r₁, s.WF env) (wf₂ : ∀ s ∈ r₂, s.WF env) (hne : ∀ s ∈ r₂, Parse.eraseItems s.items ≠ []) :
+    ∃ main dropin,
+      Parse.parse env (Parse.renderSects r₁) = .ok main ∧
+      Parse.parse env (Parse.renderSects r₂) = .ok dropin ∧
+      Parse.parse env (Parse.renderSects r₁ ++ Parse.renderSects r₂) = .ok (MM.mergeFrom main dropin) := by
+  refine ⟨Parse.eraseSects [] r₁, Parse.eraseSects [] r₂, Parse.C03_parse_render env r₁ wf₁, Parse.C03_parse_render env r₂ wf₂, ?_⟩
+  rw [← Parse.renderSects_append, Parse.C03_parse_render env (r₁ ++ r₂) (by
+      intro s hs
+      rcases List.mem_append.mp hs with h | h
+      · exact wf₁ s h
+      · exact wf₂ s h),
+    Parse.eraseSects_append,
+    Parse.eraseSects_eq_merge r₂ hne _ (Parse.nodup_eraseSects r₁ [] (by simp))]
+
+/-- the loop over all units gives the same services whether a unit came from one file or from a main file and such a drop-in
+    (the unit in the list is the same value; stated for the record: the run model reads nothing but the merged unit) -/
+theorem C13_split_same_services (env : Parse.Env) (r₁ r₂ : List Parse.RSect)
+    (wf₁ : ∀ s ∈ r₁, s.WF env) (wf₂ : ∀ s ∈ r₂, s.WF env) (hne : ∀ s ∈ r₂, Parse.eraseItems s.items ≠ [])
+    (whole main dropin : MM.SUnit)
+    (hw : Parse.parse env (Parse.renderSects r₁ ++ Parse.renderSects r₂) = .ok whole)
+    (hm : Parse.parse env (Parse.renderSects r₁) = .ok main) (hd : Parse.parse env (Parse.renderSects r₂) = .ok dropin)
+    (path : Str) (before after : List QUnit) :
+    processUnits (before ++ { path := path, unit := whole } :: after)
+      = processUnits (before ++ { path := path, unit := MM.mergeFrom main dropin } :: after) := by
+  obtain ⟨m, d, h1, h2, h3⟩ := C13_split_exact env r₁ r₂ wf₁ wf₂ hne
+  rw [hm] at h1; rw [hd] at h2; rw [hw] at h3
+  cases h1; cases h2; cases h3
+  rfl
 
 def exEnv : Parse.Env := { keyChar := fun c => c.isAlphanum || c == '-', validRaw := fun _ => true }
 def exItem (v : String) : Parse.Item := .entry ⟨[], "Key".toList, [], [], [], v.toList⟩
